@@ -7,7 +7,8 @@ RULE = ("controlled schedules (real threads, one runnable at a time; scheduling 
         "destructor's lifetime wait) of pools with 1-3 workers and 1-3 client threads issuing 1-6 submissions of the six kinds (co_await pool, "
         "co_await pool(awaitable), run(fn), run_detached, resume(suspend_point), run(async)) whose job bodies are lists of up to 4 pool "
         "operations (submit again / run_detached from a worker, stop() on the own pool, current::is_stopped(), current::any_enqueued(), "
-        "co_await thread_pool::current(), waiting for the outcome of another submission), clients waiting for a submission, explicit stop() from clients, client threads calling worker(), destructor at the end (racing "
+        "co_await thread_pool::current(), waiting for the outcome of another submission, run(async) coroutines suspending on a later job), "
+        "resume(suspend_point) with 1..9 prepared coroutines, clients waiting for a submission, explicit stop() from clients, client threads calling worker(), destructor at the end (racing "
         "with job-issued stops); random, bursty, workers-first and clients-first schedules; every schedule prefix of length 5 over 3 choices "
         "for the two destructor-vs-job-stop configurations; thorough adds every prefix of length 8 for 9 small configurations; non-trivial = "
         "at least 3 thread switches in the executed trace and (a stop()/self-stop races with a submission or >= 2 submissions); distinct = "
